@@ -510,6 +510,54 @@ fn loss_then_anti_entropy(out: &mut Out, rng: &mut Rng, cap: u64) {
     out.count("sim:loss-then-anti-entropy");
 }
 
+/// the bounded outbox inside the cluster: one node accepts cap-3 … cap+6 writes between two gossip
+/// rounds (`MAX_PENDING_DELTAS` crossed, oldest dropped), the round ships what is left; keys that
+/// were only written early never reach the peers by gossip — anti-entropy repairs it
+fn burst_over_outbox(out: &mut Out, rng: &mut Rng, cap: u64) {
+    let n = rng.range(2, 3) as usize;
+    let shape = Shape { n, rf: None, causal: false, auto: true, depth: 8, limit: 1000, keys: KEYS.len() };
+    let seed = rng.next();
+    let mut w = World::new(out, shape, cap, seed);
+    let writes = cap - 3 + rng.below(10);
+    let early = rng.range(1, 3);
+    for t in 0..writes {
+        // the first few writes go to keys that are not touched again
+        let k = if t < early { KEYS[4 + (t % 2) as usize] } else { KEYS[rng.below(4) as usize] };
+        if t >= early && rng.chance(1, 8) {
+            w.exec_del(out, 0, &[k]);
+        } else {
+            let v = val(rng);
+            w.exec_set(out, 0, k, &v, None);
+        }
+    }
+    w.state(out, 0);
+    w.gossip(out, 0.0, 1, 2);
+    w.advance(out, 5);
+    w.gossip(out, 0.0, 1, 1);
+    w.states(out);
+    let all: Vec<usize> = (0..n).collect();
+    for k in KEYS {
+        w.check(out, k, &all);
+    }
+    w.full_sync(out);
+    w.states(out);
+    let mut ok = true;
+    for k in KEYS {
+        let (_, among, served) = w.check(out, k, &all);
+        if !among || !served {
+            ok = false;
+            out.violation(
+                "C06:sim:diverged-after-full-anti-entropy",
+                "deltas dropped by the bounded outbox, then run_full_anti_entropy with a limit above the number of keys: the nodes still hold or serve different values",
+                json!({"history": w.text.clone(), "key": k}),
+            );
+        }
+    }
+    let text = w.text.clone();
+    out.case(&text, ok);
+    out.count(if writes > cap { "sim:burst:over-the-outbox-capacity" } else { "sim:burst:within-the-outbox-capacity" });
+}
+
 pub fn part_s(out: &mut Out, rng: &mut Rng, n: usize) {
     let cap = crate::c06msg::read_src("src/replication/state/shard_state.rs")
         .and_then(|s| crate::c06msg::scan_const(&s, "MAX_PENDING_DELTAS"))
@@ -521,5 +569,9 @@ pub fn part_s(out: &mut Out, rng: &mut Rng, n: usize) {
     for _ in 0..(n / 3).max(10) {
         let mut r = rng.fork();
         loss_then_anti_entropy(out, &mut r, cap);
+    }
+    for _ in 0..(n / 40).max(4) {
+        let mut r = rng.fork();
+        burst_over_outbox(out, &mut r, cap);
     }
 }
